@@ -401,7 +401,7 @@ def p7_exact_comparisons(run: Run, w: World) -> None:
     fns = [s for s in mod.tree.body if isinstance(s, ast.FunctionDef) and s.name == "_eval_is_ge"]
     if not fns:
         raise AnalysisError("C02/P7: quantities._eval_is_ge not found")
-    f = Fn(w, QMOD, "_eval_is_ge")
+    f = Fn(w, QMOD, "_eval_is_ge", inline=True)
     # quantities of inequivalent dimensions must not be ordered at all (otherwise SymPy folds Max(3 m, 2 s) to 3 m before the
     # constructor sees the mismatch): every verdict is dominated by a dimension-equivalence guard that leaves the relation undecided
     guards = []
